@@ -42,13 +42,19 @@ func main() {
 		if len(os.Args) > 5 {
 			modes = os.Args[5:]
 		}
-		err = runL1(seed, n, dir, modes, false)
+		err = runL1(seed, n, dir, modes, false, false)
+	case "l1c":
+		modes := []string{"rows", "plain"}
+		if len(os.Args) > 5 {
+			modes = os.Args[5:]
+		}
+		err = runL1(seed, n, dir, modes, false, true)
 	case "l1f":
 		modes := []string{"rows", "plain", "cb"}
 		if len(os.Args) > 5 {
 			modes = os.Args[5:]
 		}
-		err = runL1(seed, n, dir, modes, true)
+		err = runL1(seed, n, dir, modes, true, false)
 	case "l2":
 		prof := "single"
 		if len(os.Args) > 5 {
